@@ -110,8 +110,8 @@ func c10Plan(tier string) []PlanItem {
 func init() {
 	oracles["C10"] = oracleC10
 	props["C10"] = &propDef{
-		Level: "exploration",
-		Rule:  "full lattice of assignments of (Priority in {0,1,2}, takeover off/on; takeover requires priority>0) to 2 and 3 instances x start orders; safety on every execution with <= D deviations under latencies < H/2 (interleavings of the takeover's Get/Update with the incumbent's heartbeat, watch delay/duplication, start order moved to every choice point); promptness on the '/prompt' scenarios (latencies <= H/10, a lower-priority leader already established); one 4-instance scenario in the thorough tier; non-trivial = a live record was replaced by another instance or a takeover-enabled instance ran next to a leader",
+		Level:  "exploration",
+		Rule:   "full lattice of assignments of (Priority in {0,1,2}, takeover off/on; takeover requires priority>0) to 2 and 3 instances x start orders; safety on every execution with <= D deviations under latencies < H/2 (interleavings of the takeover's Get/Update with the incumbent's heartbeat, watch delay/duplication, start order moved to every choice point); promptness on the '/prompt' scenarios (latencies <= H/10, a lower-priority leader already established); one 4-instance scenario in the thorough tier; non-trivial = a live record was replaced by another instance or a takeover-enabled instance ran next to a leader",
 		Assume: []string{"5 instances are not run (cost); priorities limited to {0,1,2}", "promptness bound: 3H from the Start of the takeover-enabled instance plus the latency injected into its operations"},
 		Plan:   c10Plan,
 	}
